@@ -238,6 +238,86 @@ theorem c19_content_type_spelling (cfg : Cfg) (ct ct' : Option Text) (cl : Optio
   unfold httpCall
   simp [h, h']
 
+
+/-- once the kind is known an oversize body is always reported as too large -/
+theorem readChunks_known_oversize (max : Nat) : ∀ (rest : List Text) (seen skipped : Nat) (received : Text) (s : Bool),
+    seen ≤ max → max < seen + totalLen rest →
+    readChunks max rest seen skipped received (some s) = .tooLarge := by
+  intro rest
+  induction rest with
+  | nil => intro seen skipped received s h1 h2; simp [totalLen] at h2; omega
+  | cons ch rest ih =>
+    intro seen skipped received s h1 h2
+    simp only [totalLen] at h2
+    simp only [readChunks]
+    by_cases hov : seen + byteLen ch > max
+    · simp [hov]
+    · simp only [hov, ↓reduceIte]
+      exact ih _ _ _ _ (by omega) (by omega)
+
+theorem sniffChunk_zero_not_found (t : Text) (i : Nat) (s : Bool) : sniffChunk 0 t ≠ .found i s := by
+  cases t <;> simp [sniffChunk]
+
+/-- an oversize body whose whole text is sniffable (JSON-RPC shaped) is too large, however it is
+chunked: no chunk boundary can turn it into "malformed" -/
+theorem readChunks_unknown_oversize (max : Nat) : ∀ (rest : List Text) (seen skipped : Nat) (idx : Nat) (s : Bool),
+    seen ≤ max → max < seen + totalLen rest →
+    sniffChunk (128 - skipped) rest.flatten = .found idx s →
+    readChunks max rest seen skipped [] none = .tooLarge := by
+  intro rest
+  induction rest with
+  | nil => intro seen skipped idx s h1 h2; simp [totalLen] at h2; omega
+  | cons ch rest ih =>
+    intro seen skipped idx s h1 h2 hsn
+    simp only [totalLen] at h2
+    simp only [List.flatten_cons] at hsn
+    simp only [readChunks]
+    by_cases hov : seen + byteLen ch > max
+    · simp [hov]
+    · simp only [hov, ↓reduceIte]
+      cases hs : sniffChunk (128 - skipped) ch with
+      | found i s' =>
+        simp only []
+        exact readChunks_known_oversize max rest _ _ _ _ (by omega) (by omega)
+      | bad =>
+        rw [sniff_append_decided _ ch rest.flatten (by rw [hs]; simp), hs] at hsn
+        simp at hsn
+      | more =>
+        simp only []
+        obtain ⟨hl, he⟩ := sniff_append_more _ ch rest.flatten hs
+        rw [he] at hsn
+        by_cases hw : ch.length < 128 - skipped
+        · simp only [hw, ↓reduceIte]
+          cases hs2 : sniffChunk (128 - skipped - ch.length) rest.flatten with
+          | found i2 s2 =>
+            have : 128 - (skipped + ch.length) = 128 - skipped - ch.length := by omega
+            exact ih _ _ i2 s2 (by omega) (by omega) (by rw [this]; exact hs2)
+          | more => rw [hs2] at hsn; simp at hsn
+          | bad => rw [hs2] at hsn; simp at hsn
+        · exfalso
+          have hz : 128 - skipped - ch.length = 0 := by omega
+          rw [hz] at hsn
+          cases hs2 : sniffChunk 0 rest.flatten with
+          | found i2 s2 => exact sniffChunk_zero_not_found _ _ _ hs2
+          | more => rw [hs2] at hsn; simp at hsn
+          | bad => rw [hs2] at hsn; simp at hsn
+
+/-- **C19.2 (all JSON-RPC bodies)** — for every chunk list whose concatenation is JSON-RPC shaped
+(`{` or `[` after at most 127 ASCII-whitespace characters), whatever its size, `read_body` gives
+what it gives for the same bytes in one chunk: the accepted data within the limit, "too large"
+beyond it.  Together with `c19_chunking` (all bodies within the limit) only bodies that are both
+oversize *and* not JSON-RPC shaped are left out — they are outside the statement's quantifier. -/
+theorem c19_chunking_jsonrpc_bodies (max : Nat) (chunks : List Text) (idx : Nat) (s : Bool)
+    (hsn : sniffChunk 128 chunks.flatten = .found idx s) :
+    readChunks max chunks 0 0 [] none = readChunks max [chunks.flatten] 0 0 [] none := by
+  by_cases h : totalLen chunks ≤ max
+  · exact c19_chunking max chunks h
+  · have h1 := readChunks_unknown_oversize max chunks 0 0 idx s (by omega) (by omega) (by simpa using hsn)
+    have h2 := readChunks_unknown_oversize max [chunks.flatten] 0 0 idx s (by omega)
+      (by simp [totalLen, totalLen_flatten]; omega) (by simpa using hsn)
+    rw [h1, h2]
+
+
 -- non-vacuity: an empty first chunk and a whitespace-only chunk before the body
 example : readChunks 100 [[], [32, 10], [123, 125]] 0 0 [] none = .ok [123, 125] true := by decide
 example : totalLen [[], [32, 10], [123, 125]] ≤ 100 := by decide
